@@ -442,8 +442,8 @@ def obligations(tier):
                         bounds='receiver 0..3 x 1..3 (incl. zero-row tables), offending length / arity 0..4 at every column position', smoke=[[2, 2, 3, 0], [2, 2, 2, 1], [3, 2, 1, 1]]))
     for op in SYM_OPS:
         for n in range(4):
-            if op == 'slice' and n == 0:
-                continue        # covered natively by ctor[slice] on 0-row shapes
+            if n == 0 and op in ('slice', 'mask', 'setrow'):
+                continue        # nothing to mask / no row to assign on 0 rows; slices of 0-row tables are covered natively by ctor[slice]
             obs.append(dict(name='rect-symbolic[%s,n=%d]' % (op, n), fn='h_rect_sym', config={'op': op, 'n': n}, budget=90 if q else 300,
                             bounds='%d rows x 2 columns of unbounded symbolic ints (slice bounds in [-4,4], mask bits, appended row / written row symbolic); symbolically executed (not native)' % n,
                             smoke=[[1, 2, 3, 4, 5, 6, n, 7, 8, 0, 0, False, False, False]]))
